@@ -2,6 +2,7 @@
 from __future__ import annotations
 
 import json
+import re
 import os
 import pathlib
 import sys
@@ -60,8 +61,20 @@ class Ctx:
         full = f"{rule} | {key}"
         if self.only and self.only not in full:
             return ok
+        if not ok and detail and _OPAQUE_RE.search(str(detail)):
+            # the contradiction involves a value the engine could not follow: that is a failure of the analysis, never a verdict
+            self.analysis_errors.append(f"{full}: not decidable, an unmodelled value is involved ({str(detail)[:160]})")
+            return ok
         self.obligations.append({"rule": rule, "key": full, "ok": bool(ok), "detail": detail, "loc": loc, "facts": facts})
         return ok
+
+    def coverage(self, rule: str, key: str, got: int, need: int, detail: str = "", loc: str = ""):
+        """a hand-confirmed minimum of analysed instances: meeting it is recorded as an obligation that holds; falling short means
+        the ANALYSIS lost ground (exit 2) — it says nothing about the property and is never reported as a violation"""
+        if got >= need:
+            return self.ob(rule, key, True, detail or f"{got} analysed, {need} confirmed by hand", loc)
+        self.analysis_errors.append(f"{rule} | {key}: only {got} analysed, {need} confirmed by hand ({detail})")
+        return False
 
     def info(self, msg: str):
         self.infos.append(msg)
@@ -91,6 +104,9 @@ class Ctx:
 
     def count(self, rule: str) -> int:
         return sum(1 for o in self.obligations if o["rule"] == rule)
+
+
+_OPAQUE_RE = re.compile(r"AOpq\(|OB\(|\bopaque\b|external [a-z_.]+")
 
 
 def load_known() -> Dict[str, Any]:
